@@ -324,7 +324,7 @@ def sanitizer_summary(err):
 
 # ---- anti-vacuity: the oracle must reject corrupted copies of real trace lines ---------------
 
-_BOGUS = {"n": [122, 122, 122], "k": "s", "P": 1, "S": 0, "v": [[1]], "d": [], "st": 0, "pv": 0}
+_BOGUS = {"n": [122, 122, 122], "k": "s", "P": 1, "S": 0, "v": [[1]], "d": [], "st": 0, "pv": 0, "pvd": [48]}
 
 
 def oracle_selftest(ctx, ts, cfg, want_gen):
